@@ -606,8 +606,8 @@ func (vc *VC) renderL(prefix int, goal string, extra []string, tags map[int]bool
 		b.WriteByte('\n')
 	}
 	for i, l := range vc.lines[:prefix] {
-		if tags != nil && vc.lineTag[i] >= 0 && !tags[vc.lineTag[i]] {
-			continue
+		if tags != nil && vc.lineTag[i] >= 0 && !tags[vc.lineTag[i]] && !strings.HasPrefix(l, "(declare-") {
+			continue // assumptions of blocks that are not CFG ancestors; declarations stay (lemmas may mention them)
 		}
 		if vc.dropQuant && (strings.Contains(l, "(forall ") || strings.Contains(l, "(exists ")) {
 			continue
